@@ -5,7 +5,9 @@ import (
 )
 
 func mergeDocs(doc, patch *Document) error {
-	merged, err := merge(doc.Data, patch.Data)
+	// Each target gets its own copy of the patch so that documents never
+	// share (or mutate) layer data.
+	merged, err := merge(doc.Data, cloneValue(patch.Data))
 	if err != nil {
 		return err
 	}
@@ -201,7 +203,7 @@ func mergeListMatch(obj []any, m any, v map[string]any) ([]any, error) {
 		if match(v2, m) {
 			found = true
 
-			v2, err := merge(v2, val)
+			v2, err := merge(v2, cloneValue(val))
 			if err != nil {
 				return nil, err
 			}
